@@ -328,6 +328,9 @@ class C01(Property):
                 "rt_flatten": [list(p) for p in f1], "rt2_flatten": [list(p) for p in f2],
                 "_elem": fl.extract(el, schema), "_env": fl.make_env(kinds, texts, comps)}
 
+    def has_model(self, case):
+        return not fl.digit_sep(case["sep"])
+
     def model_input(self, case, obs):
         if not obs or "_elem" not in obs:
             return {"schema": case["schema"], "sep": case["sep"], "elem": {"leaf": ""}, "env": fl.make_env([], [], [])}
